@@ -22,6 +22,7 @@ def build_registry(world=None) -> Registry:
     c_component_ctx.register(reg)
     c_component_ctx.register2(reg)
     c_component_ctx.register3(reg)
+    c_component_ctx.register4(reg)
     c_runner.register(reg)
     c_inject.register(reg)
     c_cli.register(reg)
